@@ -194,6 +194,7 @@ class ExcType:
             "ZeroDivisionError": "ArithmeticError", "ArithmeticError": "Exception",
             "RuntimeError": "Exception", "NotImplementedError": "RuntimeError",
             "AttributeError": "Exception", "OSError": "Exception", "FileNotFoundError": "OSError",
+            "FileExistsError": "OSError", "PermissionError": "OSError", "RecursionError": "RuntimeError",
             "StopIteration": "Exception", "AssertionError": "Exception",
             "BaseException": None, "KeyboardInterrupt": "BaseException"}
 
